@@ -1,0 +1,18 @@
+//! Verification models, compiled only with feature `cosmian_cover_crypt_verif`
+//! (off by default; never enable it in production builds).
+//!
+//! With `--no-default-features --features cosmian_cover_crypt_verif` the type
+//! aliases and imports the crate already uses to select its primitives resolve
+//! to the models below, so that a bounded model checker (Kani/CBMC) can execute
+//! the crate's own key-management, encapsulation and policy logic:
+//!
+//! - `collections`: `HashMap`/`HashSet` as association lists (same API subset,
+//!   deterministic insertion order);
+//! - `toy_group`: the key-homomorphic NIKE over (Z_251, +) with generator 1;
+//! - `toy_kem`: an ideal KEM with implicit rejection;
+//! - `hash`: `Sha3`/`Kmac` as a collision-free random-oracle table.
+
+pub mod collections;
+pub mod hash;
+pub mod toy_group;
+pub mod toy_kem;
